@@ -121,16 +121,25 @@ func (w wWidth) enc() string {
 type wLeaf struct {
 	Kind string `json:"kind"` // image divider text
 	E    wEdges `json:"e"`    // its own padding (border unused)
+	// attributes that select other markup paths but have nothing to do with widths (alignment, links, colours): not part of the
+	// Model's input, so any influence on a width shows as a disagreement
+	Look string `json:"look,omitempty"`
 }
 
 func (l wLeaf) mjml(id string) string {
 	switch l.Kind {
 	case "image":
-		return fmt.Sprintf(`<mj-image src="i.png" alt="leaf%s"%s/>`, id, l.E.padAttr())
+		return fmt.Sprintf(`<mj-image src="i.png" alt="leaf%s"%s%s/>`, id, l.E.padAttr(), l.Look)
 	case "divider":
-		return fmt.Sprintf(`<mj-divider css-class="leaf%s"%s/>`, id, l.E.padAttr())
+		return fmt.Sprintf(`<mj-divider css-class="leaf%s"%s%s/>`, id, l.E.padAttr(), l.Look)
 	}
-	return "<mj-text>t</mj-text>"
+	return "<mj-text" + l.Look + ">t</mj-text>"
+}
+
+var leafLooks = map[string][]string{
+	"text":    {"", "", ` align="right"`, ` align="center"`, ` align="left"`, ` align="justify"`, ` color="#ff0000" container-background-color="#eeeeee"`, ` height="40px"`},
+	"image":   {"", "", ` align="right"`, ` align="left"`, ` href="http://x/u"`, ` container-background-color="#eeeeee"`, ` border-radius="4px"`},
+	"divider": {"", "", ` align="right"`, ` align="left"`, ` border-width="2px"`, ` container-background-color="#eeeeee"`},
 }
 
 func (l wLeaf) enc() string {
@@ -431,6 +440,7 @@ func genWLeaf(r *Rng) wLeaf {
 	if r.Bool(1, 3) {
 		l.E = genEdges(r, wForms, 0)
 	}
+	l.Look = r.Pick(leafLooks[l.Kind])
 	return l
 }
 
@@ -501,6 +511,26 @@ func widthDocs(tier string, seed int64) []*wDoc {
 			docs = append(docs, &wDoc{Body: body, Sec: plain, Items: []wItem{{Group: &wWidth{Kind: "a"}, Cols: []wCol{{W: wWidth{"p", 25, 1}, Leaf: wLeaf{Kind: leaf}}, {W: wWidth{Kind: "a"}, Leaf: wLeaf{Kind: leaf}}}}}})
 		}
 	}
+	// every cosmetic look of every leaf kind, alone in a column (which selects the single-column markup paths) and next to a
+	// sibling, under a padded / bordered section, wrapper and column
+	for _, kind := range []string{"text", "image", "divider"} {
+		for _, look := range leafLooks[kind][2:] {
+			lf := wLeaf{Kind: kind, Look: look}
+			e := wEdges{PadForm: "2", Pad: [4]int{20, 30, 20, 30}}
+			bd := wEdges{Border: 10}
+			single := []wItem{{Col: &wCol{W: wWidth{Kind: "a"}, Leaf: lf}}}
+			half := []wItem{{Col: &wCol{W: wWidth{"p", 50, 1}, Leaf: lf}}}
+			pair := []wItem{{Col: &wCol{W: wWidth{Kind: "a"}, Leaf: lf}}, {Col: &wCol{W: wWidth{Kind: "a"}, Leaf: wLeaf{Kind: "text"}}}}
+			for _, its := range [][]wItem{single, half, pair} {
+				docs = append(docs, &wDoc{Body: 600, Sec: e, Items: its})
+				docs = append(docs, &wDoc{Body: 600, Sec: bd, Items: its})
+				docs = append(docs, &wDoc{Body: 600, Wrapper: &e, Sec: plain, Items: its})
+				docs = append(docs, &wDoc{Body: 600, Wrapper: &e, Sec: e, Items: its})
+				docs = append(docs, &wDoc{Body: 600, Sec: plain, Items: its})
+			}
+			docs = append(docs, &wDoc{Body: 600, Sec: plain, Items: []wItem{{Col: &wCol{W: wWidth{Kind: "a"}, E: e, Leaf: lf}}}})
+		}
+	}
 	n := 400
 	if tier == "thorough" {
 		n = 20000
@@ -519,6 +549,7 @@ func widthDocs(tier string, seed int64) []*wDoc {
 				l := genWLeaf(r)
 				if l.Kind == "text" {
 					l.Kind = "image"
+					l.Look = r.Pick(leafLooks["image"])
 				}
 				d.Leaves = append(d.Leaves, l)
 			}
